@@ -75,6 +75,26 @@ def check_fit(ck, c, rnd, full):
     if not (abs(arc.point(0) - arc.start) <= 1e-6 * size) or not (abs(arc.point(1) - arc.end) <= 1e-6 * size):
         return bad('endpoints', 'point(0)/point(1) = %r/%r' % (arc.point(0), arc.point(1)), (arc.start, arc.end), (arc.point(0), arc.point(1)))
     if full:
+        # beyond the listed clauses: phase2t / point_to_t invert point() on the lattice (point_to_t is documented for unrotated arcs only)
+        for j in sorted(set(x for x in (1, n // 2, n - 1) if 0 < x < n)):      # interior steps: at the exact start angle rounding may wrap phase2t around (outside the listed clauses)
+            alpha = A['th'] + sg * j
+            try:
+                tj = arc.phase2t(math.radians(15.0 * alpha))
+            except Exception as e:      # noqa
+                return bad('phase2t-raises', 'phase2t raised %r' % e, j / float(n), repr(e))
+            if not (abs(tj - j / float(n)) <= 1e-6):
+                return bad('phase2t', 'phase2t(angle of step %d) = %r' % (j, tj), j / float(n), tj)
+            if A['phi'] % 24 == 0:
+                try:
+                    tp = arc.point_to_t(am.lat_point(A, alpha))
+                except Exception as e:      # noqa
+                    return bad('point_to_t-raises', 'point_to_t raised %r' % e, j / float(n), repr(e))
+                if tp is None or not (abs(tp - j / float(n)) <= 1e-5):
+                    return bad('point_to_t', 'point_to_t(point at step %d) = %r' % (j, tp), j / float(n), tp)
+        if A['phi'] % 24 == 0 and n <= 20:
+            off = am.lat_point(A, A['th'] + sg * (n + 2))         # a point of the ellipse beyond the end of the arc
+            if arc.point_to_t(off) is not None:
+                return bad('point_to_t-off-arc', 'point_to_t of a point beyond the sweep = %r' % arc.point_to_t(off), None, arc.point_to_t(off))
         for m in (1, 3):
             for name in ('as_cubic_curves', 'as_quad_curves'):
                 try:
